@@ -407,6 +407,8 @@ def _update_axis(
   sketch_dk = sketch_dk * axis_state.eigvals[jnp.newaxis, :]
   all_but_dim = [i for i in range(update.ndim) if i != dim]
   g_dm = update.transpose([dim] + all_but_dim).reshape(d, -1)
+  # The sketch holds square roots of covariance eigenvalues, so it is
+  # discounted by sqrt(decay); the tail is in covariance units (decay itself).
   decay = jnp.sqrt(options.second_moment_decay)
 
   # This implementation uses only O(|gradient size|) memory because
@@ -452,11 +454,12 @@ def _update_axis(
     tail = jnp.exp(jax.scipy.special.logsumexp(fitted_vals * 2)) / (d - k)
     undeflated = jnp.square(jnp.maximum(top_eigs, 0.0))
   else:
-    tail = axis_state.tail * decay + cutoff**2
+    tail = axis_state.tail * options.second_moment_decay + cutoff**2
     # Avoid numerical error from the sqrt computation and from subtracting
     # and re-adding cutoff^2 (mathematically, undeflated == deflated^2 + tail).
     undeflated = (
-        jnp.square(jnp.maximum(top_eigs, 0.0)) + axis_state.tail * decay
+        jnp.square(jnp.maximum(top_eigs, 0.0))
+        + axis_state.tail * options.second_moment_decay
     )
   eigvecs = u[:, :k]
 
@@ -480,7 +483,10 @@ def _update_axis(
   if options.ekfac_svd:
     assert u.shape[1] <= d
     prev_tail = axis_state.tail
-    undeflated_ekfac = jnp.square(jnp.maximum(s, 0.0)) + prev_tail * decay
+    undeflated_ekfac = (
+        jnp.square(jnp.maximum(s, 0.0))
+        + prev_tail * options.second_moment_decay
+    )
     svd_result_u = u
     svd_result_s = jnp.where(
         undeflated_ekfac > 0, (undeflated_ekfac + eps) ** alpha, 0.0
